@@ -317,6 +317,24 @@ def svg_source(r, gi=0, pal=None, vb=None, max_shapes=4, gradients=True, groups=
 
     repeats = []
     body = emit(0)
+    if gradients and r.random() < 0.05:
+        # a very thin bar (aspect 30..150 : 1) carrying a bounding-box gradient: the gradient's frame is squeezed by
+        # that ratio, so circle centres and end points mapped through the inverse of the residual matrix can leave
+        # the 16-bit range when the bar sits far from the baseline
+        w = vbw * r.uniform(0.7, 0.95)
+        h = w / r.uniform(30, 150)
+        bx, by = vbx + (vbw - w) * r.uniform(0, 1), vby + (vbh - h) * r.choice([r.uniform(0, 0.2), r.uniform(0, 1), r.uniform(0.85, 1)])
+        gid = f"bar{gi}"
+        if r.random() < 0.6:
+            defs.append(f'<radialGradient id="{gid}" cx="0.5" cy="0.5" r="0.5">{stops_xml(r, pal)}</radialGradient>')
+        else:
+            defs.append(f'<linearGradient id="{gid}" x1="0" y1="0" x2="1" y2="1">{stops_xml(r, pal)}</linearGradient>')
+        if r.random() < 0.5:
+            bx, by, w, h = by - vby + vbx, bx - vbx + vby, h, w  # upright instead of lying
+        body += f'<rect x="{f3(bx)}" y="{f3(by)}" width="{f3(w)}" height="{f3(h)}" fill="url(#{gid})"/>'
+        meta["thin_bar_gradient"] = 1
+        meta["shapes"] += 1
+        meta["gradients"] += 1
     text = f'<svg xmlns="http://www.w3.org/2000/svg" viewBox="{f3(vbx)} {f3(vby)} {f3(vbw)} {f3(vbh)}"><defs>{"".join(defs)}</defs>{body}</svg>'
     return text, meta
 
